@@ -167,7 +167,7 @@ class Signs:
                 if not isinstance(v, Num):
                     ok = False
                     break
-                env = SignEnv(self.atom_sign_fn(ca, input_sign, hyp), tuple(p.state.facts))
+                env = SignEnv(self.atom_sign_fn(ca, input_sign, hyp), tuple(p.state.facts), self.lower_fn(ca))
                 s = env.frac(v.f)
                 if hyp == POS and s != POS:
                     ok = False
@@ -195,7 +195,27 @@ class Signs:
         return self.name_sign(ca, name, SZERO)
 
     def written_sign(self, ca: ClassAnalysis, name: str) -> Optional[str]:
-        """sign of a managed series (field) from the values this class writes into it"""
+        """sign of a managed series (field) from the values this class writes into it (inductive: the
+        hypothesis is assumed for the series' own earlier values while its written values are checked)"""
+        key = (ca.ci.module.name, ca.ci.name, name)
+        cache = self.__dict__.setdefault("_ws", {})
+        if key in cache:
+            return cache[key]
+        result = None
+        for hyp in (POS, NONNEG, ANY):
+            cache[key] = hyp
+            got = self._written_sign_once(ca, name)
+            if got is None:
+                result = None
+                break
+            leq = {POS: (POS,), NONNEG: (POS, NONNEG, SZERO), ANY: (POS, NONNEG, SZERO, NEG, NONPOS, ANY)}[hyp]
+            if got in leq:
+                result = hyp if hyp != ANY else got
+                break
+        cache[key] = result
+        return result
+
+    def _written_sign_once(self, ca: ClassAnalysis, name: str) -> Optional[str]:
         base, _, fld = name.partition(".")
         out = None
         found = False
@@ -216,8 +236,9 @@ class Signs:
                         continue
                     if not isinstance(v, Num):
                         return ANY
-                    env = SignEnv(self.atom_sign_fn(ca, POS if self.assume_input_positive else ANY, ANY), tuple(p.state.facts))
+                    env = SignEnv(self.atom_sign_fn(ca, POS if self.assume_input_positive else ANY, ANY), tuple(p.state.facts), self.lower_fn(ca))
                     s = env.frac(v.f)
+                    s = SignEnv._meet(p.state.sgn.get(v.f), s) if p.state.sgn.get(v.f) else s
                     out = s if not found else s_join(out, s)
                     found = True
         return out if found else None
@@ -267,8 +288,47 @@ class Signs:
 
         return f
 
+    def lower_fn(self, ca: ClassAnalysis):
+        def lb(a):
+            if a[0] != "cfg":
+                return None
+            fi = ca.interp.fields.get(a[1])
+            if fi is None or fi.annotation is None or not fi.init:
+                return None
+            ann = ast.unparse(fi.annotation)
+            if "int" in ann and "bool" not in ann and a[1] != "round_value":
+                return 2
+            return None
+
+        return lb
+
     def env_for(self, ca: ClassAnalysis, facts: tuple) -> SignEnv:
-        return SignEnv(self.atom_sign_fn(ca, POS if self.assume_input_positive else ANY, ANY), tuple(facts))
+        return SignEnv(self.atom_sign_fn(ca, POS if self.assume_input_positive else ANY, ANY), tuple(facts), self.lower_fn(ca))
+
+    def analyse(self, ci: ClassInfo) -> ClassAnalysis:
+        """second interpretation pass with compositional sign tracking (uses the first pass for helper summaries)"""
+        key = (self.repo.digest, ci.module.name, ci.name)
+        cache = self.__dict__.setdefault("_ca2", {})
+        if key in cache:
+            return cache[key]
+        ca1 = analyse_class(self.repo, ci)
+        from .indic import IndicatorInterp
+        from .absint import State, Unmodelled
+
+        it = IndicatorInterp(self.repo, ci, ca1.tree)
+        it.sign_env_factory = lambda facts: self.env_for(ca1, facts)
+        ca2 = ClassAnalysis(ci, ca1.tree, ca1.fn, [], it, ca1.error)
+        if ca1.fn is not None and not ca1.error:
+            st = State()
+            params = [a.arg for a in ca1.fn.node.args.args]
+            if len(params) >= 2:
+                st.env[params[1]] = Num(T)
+            try:
+                ca2.paths = it.run(ca1.fn.node, st)
+            except Unmodelled as e:
+                ca2.error = str(e)
+        cache[key] = ca2
+        return ca2
 
 
 # ---------------------------------------------------------------------------
@@ -276,12 +336,15 @@ class Signs:
 
 
 def check_div(prop: str, res: Result, repo: Repo, cas: List[ClassAnalysis], signs: Signs):
-    for ca in cas:
+    for ca1 in cas:
+        ca = signs.analyse(ca1.ci)
         fn = _fn_of(ca)
         for s in ca.sites("div"):
             den: Frac = s.data["den"]
-            env = signs.env_for(ca, s.facts)
+            env = signs.env_for(ca1, s.facts)
             sg = env.frac(den)
+            if s.data.get("den_sign"):
+                sg = SignEnv._meet(s.data["den_sign"], sg)
             if den.is_const() and den.const_value() != 0:
                 res.ok("R-DIV", {"site": f"{ca.ci.module.relpath}:{s.line}", "den": repr(den), "why": "non-zero constant"})
             elif nonzero(sg) or env.fact_nonzero(den):
@@ -291,11 +354,14 @@ def check_div(prop: str, res: Result, repo: Repo, cas: List[ClassAnalysis], sign
 
 
 def check_sqrt(prop: str, res: Result, repo: Repo, cas: List[ClassAnalysis], signs: Signs):
-    for ca in cas:
+    for ca1 in cas:
+        ca = signs.analyse(ca1.ci)
         fn = _fn_of(ca)
         for s in ca.sites("sqrt"):
             arg: Frac = s.data["arg"]
-            sg = signs.env_for(ca, s.facts).frac(arg)
+            sg = signs.env_for(ca1, s.facts).frac(arg)
+            if s.data.get("arg_sign"):
+                sg = SignEnv._meet(s.data["arg_sign"], sg)
             if sg in (POS, NONNEG, SZERO):
                 res.ok("R-SQRT", {"site": f"{ca.ci.module.relpath}:{s.line}", "arg": repr(arg)[:120], "sign": sg}, nontrivial=f"{ca.ci.name}:sqrt")
             else:
@@ -318,7 +384,8 @@ def _is_dict_valued(ca: ClassAnalysis, name: str) -> bool:
 
 
 def check_truth(prop: str, res: Result, repo: Repo, cas: List[ClassAnalysis], signs: Signs):
-    for ca in cas:
+    for ca1 in cas:
+        ca = signs.analyse(ca1.ci)
         fn = _fn_of(ca)
         for s in ca.sites("truthy"):
             v: Frac = s.data["value"]
@@ -329,7 +396,9 @@ def check_truth(prop: str, res: Result, repo: Repo, cas: List[ClassAnalysis], si
             if a is not None and a[0] == "rd" and _is_dict_valued(ca, a[1]):
                 res.ok("R-TRUTH", {"site": f"{ca.ci.module.relpath}:{s.line}", "value": repr(v), "why": "dict-valued managed series (non-empty dict is truthy)"}, nontrivial=f"{ca.ci.name}:{v!r}")
                 continue
-            sg = signs.env_for(ca, s.facts).frac(v)
+            sg = signs.env_for(ca1, s.facts).frac(v)
+            if s.data.get("value_sign"):
+                sg = SignEnv._meet(s.data["value_sign"], sg)
             if not includes_zero(sg):
                 res.ok("R-TRUTH", {"site": f"{ca.ci.module.relpath}:{s.line}", "value": repr(v), "sign": sg, "why": "value cannot be 0 for well-formed candles"}, nontrivial=f"{ca.ci.name}:{v!r}")
             else:
@@ -339,3 +408,211 @@ def check_truth(prop: str, res: Result, repo: Repo, cas: List[ClassAnalysis], si
                 )
         for s in ca.sites("truthy-opaque"):
             res.note(f"{ca.ci.module.relpath}:{s.line} truthiness of an unmodelled value {s.data.get('value')!r}")
+
+
+# ---------------------------------------------------------------------------
+# R-WRITE / R-OWN(calc) / R-WIRE / R-BOUND / R-HISTORY(calc sites) / R-TAINT
+
+
+def check_writes(prop: str, res: Result, repo: Repo, cas: List[ClassAnalysis]):
+    for ca in cas:
+        fn = _fn_of(ca)
+        names = set(ca.tree.by_name()) | {SELF}
+        for s in ca.sites("write"):
+            d = s.data
+            pos, name = d["pos"], d["name"]
+            if pos == T and name in names:
+                res.ok("R-WRITE", {"site": f"{ca.ci.module.relpath}:{s.line} {d['how']}({name!r} @ t)", "why": "write targets the evaluated index and one of the indicator's own series"}, nontrivial=f"{ca.ci.name}:{name}")
+            elif pos != T:
+                res.fail("R-WRITE", finding(prop, "R-WRITE", fn, s.node, f"reading written at position {pos!r}, not at the evaluated index: a closed candle is repainted"))
+            else:
+                res.fail("R-WRITE", finding(prop, "R-WRITE", fn, s.node, f"write to series {name!r}, which is not this indicator's own name or one of its helpers"))
+        for s in ca.sites("candle-store"):
+            res.fail("R-OWN", finding(prop, "R-OWN", fn, s.node, f"calculation code stores to candle.{s.data['attr']}: indicators must never change candle data"))
+        for s in ca.sites("sub-store"):
+            res.fail("R-WRITE", finding(prop, "R-WRITE", fn, s.node, "store through a subscript the analysis cannot attribute to the indicator's own series"))
+
+
+def _written_fields(ca: ClassAnalysis, base: str):
+    fields, scalar = set(), False
+    for p in ca.paths:
+        for e in p.state.effects:
+            if e[0] in ("wr", "direct-wr") and e[1] == base:
+                if isinstance(e[3], DictV):
+                    fields |= set(e[3].items)
+                elif not isinstance(e[3], NoneV):
+                    scalar = True
+        if base == SELF and isinstance(p.ret, DictV):
+            fields |= set(p.ret.items)
+    return fields, scalar
+
+
+def check_wire(prop: str, res: Result, repo: Repo, cas: List[ClassAnalysis]):
+    for ca in cas:
+        fn = _fn_of(ca)
+        helpers = ca.tree.by_name()
+        for node, why in ca.tree.problems:
+            res.fail("R-WIRE", finding(prop, "R-WIRE", repo.find_method(ca.ci, "_initialise") or ca.ci, node, f"composition statement the analysis cannot interpret: {why}"))
+        for s in ca.sites("dangling-managed"):
+            res.fail("R-WIRE", finding(prop, "R-WIRE", fn, s.node, f"managed_indicators[{s.data['key']!r}] is never registered in _initialise (KeyError at run time)"))
+        for s in ca.sites("read"):
+            name = s.data.get("name")
+            if name is None:
+                continue
+            base, _, fld = name.partition(".")
+            label = f"{ca.ci.module.relpath}:{s.line} {s.data.get('how')}({name!r})"
+            if base in CANDLE_FIELDS or base == "<input>" or base == "timestamp":
+                res.ok("R-WIRE", {"site": label, "resolves": "candle field / input"})
+                continue
+            if base == SELF or base in helpers:
+                if fld:
+                    fields, _ = _written_fields(ca, base)
+                    h = helpers.get(base)
+                    if h is not None and h.cls is not repo.managed():
+                        # dict-valued helper of another class: fields are that class's returned keys
+                        hca = analyse_class(repo, h.cls)
+                        fields = set()
+                        for p in hca.paths:
+                            if isinstance(p.ret, DictV):
+                                fields |= set(p.ret.items)
+                    if fld in fields:
+                        res.ok("R-WIRE", {"site": label, "resolves": f"field {fld!r} of {base!r}"}, nontrivial=f"{ca.ci.name}:{name}")
+                    else:
+                        res.fail("R-WIRE", finding(prop, "R-WIRE", fn, s.node, f"reads field {fld!r} of {base!r} but only {sorted(fields)} are ever written: the reading is always None"))
+                else:
+                    res.ok("R-WIRE", {"site": label, "resolves": "own series" if base == SELF else helpers[base].describe()}, nontrivial=f"{ca.ci.name}:{name}")
+                continue
+            res.fail("R-WIRE", finding(prop, "R-WIRE", fn, s.node, f"reads {name!r}, which is neither a candle field, the input, the indicator's own name nor one of its helpers {sorted(helpers)}"))
+        for s in ca.sites("period-test"):
+            name = s.data["name"]
+            base = name.partition(".")[0]
+            if not (base in CANDLE_FIELDS or base == "<input>" or base == SELF or base in helpers):
+                res.fail("R-WIRE", finding(prop, "R-WIRE", fn, s.node, f"reading_period on {name!r}, which resolves to nothing: the guard is always False"))
+
+
+def _count_bounded(count: Frac, facts: tuple, extra: List[Frac]) -> Tuple[bool, str]:
+    ats = poly.all_atoms(count)
+    free = {a for a in ats if a[0] in ("t", "n", "idx", "raw")}
+    cfgs = [a for a in ats if a[0] == "cfg"]
+    if not free:
+        return True, "config/constant expression"
+    cands = []
+    tot = C(2)
+    for a in cfgs:
+        cands.append(Frac.atom(a) + C(2))
+        tot = tot + Frac.atom(a)
+    cands.append(tot)
+    cands.append(C(16))
+    for k in cands:
+        if prove_ge0(k - count, facts, extra):
+            return True, f"<= {k!r}"
+    return False, f"depends on {sorted(poly.show_atom(a) for a in free)}"
+
+
+def check_bound(prop: str, res: Result, repo: Repo, cas: List[ClassAnalysis]):
+    for ca in cas:
+        fn = _fn_of(ca)
+        for s in ca.sites("loop"):
+            count = s.data.get("count")
+            what = s.data.get("what")
+            if count is None:
+                it = s.data.get("iter")
+                if isinstance(it, Obj) and it.kind in ("candles", "reversed", "enumerate"):
+                    res.fail("R-BOUND", finding(prop, "R-BOUND", fn, s.node, "iteration over the whole candle list inside a calculation: work grows with history"))
+                else:
+                    res.note(f"{ca.ci.module.relpath}:{s.line} loop over {it!r}: bounded by the size of a local value")
+                continue
+            facts, extra = site_context(ca, s)
+            ok, why = _count_bounded(count, facts, extra)
+            if ok:
+                res.ok("R-BOUND", {"site": f"{ca.ci.module.relpath}:{s.line} {what}", "trips": repr(count), "bound": why}, nontrivial=f"{ca.ci.name}:{s.line}:{what}")
+            else:
+                res.fail("R-BOUND", finding(prop, "R-BOUND", fn, s.node, f"loop/reduction trip count {count!r} {why}: work per candle grows with the history length"))
+        for s in ca.sites("loop-stmt"):
+            res.fail("R-BOUND", finding(prop, "R-BOUND", fn, s.node, "loop whose trip count the analysis cannot bound by the configuration"))
+        for s in ca.sites("iter-other"):
+            it = s.data.get("iter")
+            if isinstance(it, Obj) and it.kind in ("candles", "reversed"):
+                res.fail("R-BOUND", finding(prop, "R-BOUND", fn, s.node, "iteration over the whole candle list inside a calculation"))
+        for s in ca.sites("candles-slice"):
+            res.fail("R-BOUND", finding(prop, "R-BOUND", fn, s.node, "slice of the candle list inside a calculation (length not bounded by the configuration)"))
+        for s in ca.sites("base-call"):
+            m = s.data.get("method")
+            if m in ("as_list", "reading_count", "purge", "recalculate", "calculate", "append", "calculate_index", "find_indicator"):
+                res.fail("R-HISTORY", finding(prop, "R-HISTORY", fn, s.node, f"{m}() called from a formula: it walks or recomputes the whole history on every candle"))
+            else:
+                res.note(f"{ca.ci.module.relpath}:{s.line} base method self.{m}() called from a formula")
+        for s in ca.sites("len-candles"):
+            res.fail("R-BOUND", finding(prop, "R-BOUND", fn, s.node, "len(candles) used inside a calculation"))
+
+
+def _has_pos_atom(f) -> bool:
+    if not isinstance(f, Frac):
+        return False
+    for a in f.atoms():
+        if a[0] in ("t", "n"):
+            return True
+        if a[0] == "bv" and isinstance(a[1], str):
+            return True
+        if a[0] in ("fn", "pow", "ite"):
+            if any(_has_pos_atom(x) for x in a[1:] if isinstance(x, Frac)):
+                return True
+            if a[0] == "ite" and _cond_has_pos(a[1]):
+                return True
+        if a[0] == "sum" and _has_pos_atom(a[3]):
+            return True
+        if a[0] == "red" and _has_pos_atom(a[4]):
+            return True
+    return False
+
+
+def _cond_has_pos(c) -> bool:
+    if not isinstance(c, tuple):
+        return False
+    if c[0] == "cmp":
+        return _has_pos_atom(c[2])
+    if c[0] in ("and", "or", "not"):
+        return any(_cond_has_pos(x) for x in c[1:])
+    return False
+
+
+def _val_fracs(v: Val):
+    if isinstance(v, Num):
+        yield v.f
+    elif isinstance(v, DictV):
+        for x in v.items.values():
+            yield from _val_fracs(x)
+    elif isinstance(v, BoolV) and isinstance(v.cond, tuple):
+        yield from _cond_fracs(v.cond)
+
+
+def _cond_fracs(c):
+    if isinstance(c, tuple):
+        if c[0] == "cmp":
+            yield c[2]
+        elif c[0] in ("and", "or", "not"):
+            for x in c[1:]:
+                yield from _cond_fracs(x)
+
+
+def check_taint(prop: str, res: Result, repo: Repo, cas: List[ClassAnalysis], branches_too: bool):
+    """R-TAINT: the absolute position never becomes (part of) a value; for moving averages it must not decide a branch either"""
+    for ca in cas:
+        fn = _fn_of(ca)
+        bad = False
+        for p in ca.paths:
+            vals = list(_val_fracs(p.ret))
+            for e in p.state.effects:
+                if e[0] in ("wr", "direct-wr"):
+                    vals.extend(_val_fracs(e[3]))
+            for f in vals:
+                if _has_pos_atom(f):
+                    bad = True
+                    res.fail("R-TAINT", finding(prop, "R-TAINT", fn, p.node or fn.node, f"the absolute candle position enters a stored value: {repr(f)[:120]}", construct=f"value depends on index: {repr(f)[:100]}"))
+            if branches_too:
+                for c in p.state.facts:
+                    if isinstance(c, tuple) and c[0] in ("cmp",) and _has_pos_atom(c[2]):
+                        bad = True
+                        res.fail("R-TAINT", finding(prop, "R-TAINT", fn, fn.node, f"a branch of the formula compares the absolute candle position ({show_cond(c)}): the result depends on where the input series starts", construct=f"branch on index: {show_cond(c)}"))
+        if not bad:
+            res.ok("R-TAINT", {"site": f"{fn.where} {ca.ci.name}", "why": "index occurs only in position slots of readings", "paths": len(ca.paths)}, nontrivial=ca.ci.name)
